@@ -13,6 +13,7 @@
 From Coq Require Import NArith ZArith List Bool.
 From ST Require Import Base.Outcome Base.Units Utf.Spec Utf.Tokens Utf.Model Utf.ProofsGeneric Utf.ProofsC01 Utf.ProofsC02 Utf.ApiCoverage.
 From ST Require Utf.LeafBridge Gen.Leaf.
+From ST Require Utf.LoopBridge Utf.LoopBridgeValidate.
 Import ListNotations.
 Local Open Scope N_scope.
 
@@ -156,3 +157,14 @@ Theorem characters_carry_no_error_mark : forall ch, ch < 2 ^ 22 ->
   ST.Gen.Leaf.src_char_error (Z.of_N ch) = 0%Z /\ char_error ch = CSuccess.
 Proof. exact ST.Utf.LeafBridge.char_error_matches_source_on_characters. Qed.
 Print Assumptions characters_carry_no_error_mark.
+
+(* ---- tie by translation, loops: validate_utf8(buffer, size), the decider behind check_validity (every ST::string
+   constructor, set, from_utf8 and operator+ in that mode goes through it), is translated from the CURRENT headers into
+   Gen/Leaf.v — the for loop with its `continue`, the three-fold macro expansion `do { ++cp; if (cp[0] is not a continuation byte)
+   return invalid_utf8_seq; } while (false)` and the view of the char array as unsigned char included; on byte strings of
+   any length, with enough fuel, it returns the conversion_error_t the model validator of every theorem above returns ---- *)
+Theorem validator_loop_matches_source : forall l fuel, all_lt 256 l = true -> (length l < fuel)%nat ->
+  exists e, validate_utf8 l = Ok e /\
+            ST.Gen.Leaf.src_validate_utf8 fuel (ST.Utf.LoopBridge.arr8s l) (Z.of_nat (length l)) = Some (Z.of_N (cerr_code e)).
+Proof. exact ST.Utf.LoopBridgeValidate.validate_utf8_matches_source. Qed.
+Print Assumptions validator_loop_matches_source.
